@@ -8,7 +8,11 @@ A case is a small recipe (tree of object templates with count / for_each, Datase
 Dataset.shuffle fields — also with `name`, which makes calls share one remembered iterator —
 nested objects, friends), the CSV files it reads (the same content is also loaded into SQLite
 tables), the number of iterations, or an update-mode run, or a run continuing an earlier one;
-or (kind csv) just a text that is read by csv.reader and Snowfakery's linear CSV iterator.
+or (kind csv) just a text that is read by csv.reader and Snowfakery's linear CSV iterator;
+or (kind session) several such runs one after the other in ONE worker process over one folder tree, the dataset
+files regenerated between the runs or the same relative URL text used from another folder.  Top-level templates
+can live in recipe files included from other folders (`inc`), Dataset fields can compute their arguments per row
+(`rowdyn`), update input files carry any name and are passed as path or open stream.
 Rows are captured raw by an output stream defined here, so column values never pass through
 an output encoder.
 """
@@ -48,6 +52,14 @@ RULE = ("cases: recipes over generated CSV files (0-7 records, 1-4 columns, quot
         "iterator and compared with the model; shuffled passes (any number of shuffled uses, also interleaved consumers "
         "of one file, also iterators shared by name) are read back per iterator and replayed in the model; datasets of "
         "499/500/501/1000/1300 records consumed for a full cycle. "
+        "Round 4: Dataset fields whose dataset / table / database URL is computed per row (formula over id / child_index, "
+        "through another field, from the for_each record) over 2-3 candidates of different length and columns: oracle per "
+        "call site and named dataset, every evaluation replayed in the model's argument-keyed memo table (CArgs); "
+        "sessions of 2-3 runs in one process with the CSV / SQLite files regenerated in between (rename over, delete and "
+        "rewrite, rewrite in place; other n, other columns) or the recipe moved to another folder with the same relative "
+        "text; recipes that include recipe files from other folders, each reading its own d0; update input files of any "
+        "name (upper-case suffix, .txt, no suffix, ...) passed as str / Path / open file / StringIO; CSV datasets under "
+        "file names with blanks, several dots, non-ASCII, sub-folders. "
         "non-trivial: some dataset with >= 2 records is drawn from at least twice (wrap-around, cycle, "
         "for_each) or is over-consumed, or an arbitrary text with >= 2 rows; distinct by case hash")
 TRUSTED = ["harness/oracle_random.py: random.Random._randbelow patched so that runs are reproducible from the case",
@@ -65,7 +77,10 @@ ASSUMPTIONS = ["UTF-8 decoding of the file (code points in, code points out) and
                "header names of a CSV file are distinct (a record is modelled as its cells in header order)",
                "a shuffled pass (random.shuffle / SQLite ORDER BY random()) is some permutation of the records; the model "
                "represents it as Fisher-Yates over an arbitrary oracle stream and the theorems hold for every stream",
-               "the dataset file does not change while a recipe runs",
+               "the dataset file does not change while a recipe runs (between the runs of one process it may: sampled by the "
+               "session stream)",
+               "a process leaves no reader on a SQLite file that blocks regenerating it in place (when SQLite reports "
+               "'database is locked' the harness regenerates by renaming a new file over the old one instead)",
                "call-site identifiers (id() of live StructuredValue objects) are distinct",
                "the `parent` keyword of memorable functions (state reset per parent row) is not modelled and not generated"]
 EXHAUSTIVE = {"quick": False, "thorough": True}
@@ -207,6 +222,14 @@ def gen_cell(rng, safe):
     return c
 
 
+CSV_NAMES = ["d0.v2.csv", "my file.csv", "Z\u00fcrich.csv", "sub dir/d0.csv", "UPPER.csv", "a.CSV.csv", "d0-copy (1).csv"]
+
+
+def csv_name(case, name):
+    """the file name (relative to the recipe's folder) under which a dataset is stored as CSV"""
+    return case["datasets"][name].get("fname") or (name + ".csv")
+
+
 PK_KINDS = ["text", "text", "composite", "int", "integer", "text_norowid", "composite_norowid"]
 
 
@@ -231,13 +254,13 @@ def sql_layout(ds):
     return ddl, got
 
 
-def gen_dataset(rng, n, ncols=None, short=False, distinct=False, plain=False, pk=None):
-    ncols = ncols or rng.choice([1, 2, 2, 3, 4])
+def gen_dataset(rng, n, ncols=None, short=False, distinct=False, plain=False, pk=None, header=None):
+    ncols = len(header) if header else (ncols or rng.choice([1, 2, 2, 3, 4]))
     if pk and "composite" in pk and ncols < 2:
         pk = "text"
     if pk:
         short, distinct = False, True
-    header = rng.sample(NAMES, ncols)
+    header = list(header) if header else rng.sample(NAMES, ncols)
     safe_cols = [rng.random() < 0.7 for _ in header]
     rows = []
     for i in range(n):
@@ -361,16 +384,18 @@ def _sid(counter):
     return counter[0]
 
 
-def gen_consumer_case(rng, n=None, m=None, mode=None, repeat="?", src=None, placement=None, iters=None):
+def gen_consumer_case(rng, n=None, m=None, mode=None, repeat="?", src=None, placement=None, iters=None, header=None):
     n = rng.randint(0, 7) if n is None else n
     src = src or rng.choice(["csv", "csv", "sql"])
     pk = rng.choice(PK_KINDS) if (src == "sql" and rng.random() < 0.6) else None
-    ds = gen_dataset(rng, n, short=rng.random() < 0.15, distinct=rng.random() < 0.5, pk=pk)
+    ds = gen_dataset(rng, n, short=rng.random() < 0.15, distinct=rng.random() < 0.5, pk=pk, header=header)
     m = rng.randint(0, 3 * n + 2) if m is None else m
     mode = mode or rng.choice(["iterate", "iterate", "shuffle"])
     repeat = rng.choice([None, None, True, False]) if repeat == "?" else repeat
     placement = placement or rng.choice(["top", "top", "friend", "nested", "deep", "two_sites", "two_templates"])
     iters = iters or rng.choice([1, 1, 2])
+    if src == "csv" and rng.random() < 0.12:
+        ds["fname"] = rng.choice(CSV_NAMES)
     u = decorate(rng, use("d0", src, mode, repeat, table=rng.random() < 0.6))
     cons = tmpl(1, ["count", m] if (m != 1 or rng.random() < 0.5) else ["default"], sites=[[1, u]],
                 nick=rng.random() < 0.2)
@@ -411,15 +436,17 @@ def pick_pass(rng, ds, allow_missing=False):
     return out
 
 
-def gen_foreach_case(rng, n=None, mode=None, src=None, placement=None, iters=None):
+def gen_foreach_case(rng, n=None, mode=None, src=None, placement=None, iters=None, header=None):
     n = rng.randint(0, 7) if n is None else n
     src = src or rng.choice(["csv", "csv", "sql"])
     pk = rng.choice(PK_KINDS) if (src == "sql" and rng.random() < 0.6) else None
-    ds = gen_dataset(rng, n, short=rng.random() < 0.15, distinct=rng.random() < 0.6, pk=pk)
+    ds = gen_dataset(rng, n, short=rng.random() < 0.15, distinct=rng.random() < 0.6, pk=pk, header=header)
     # projected columns must exist on every record that has them (a short line renders as None: fine)
     mode = mode or rng.choice(["iterate", "iterate", "shuffle"])
     placement = placement or rng.choice(["top", "top", "friend", "nested", "inner_foreach", "with_children"])
     iters = iters or rng.choice([1, 1, 2])
+    if src == "csv" and rng.random() < 0.12:
+        ds["fname"] = rng.choice(CSV_NAMES)
     u = decorate(rng, use("d0", src, mode, rng.choice([None, None, True, False]), table=rng.random() < 0.6), p_name=0.25)
     fe = tmpl(1, ["foreach", u], pas=pick_pass(rng, ds, allow_missing=True), nick=rng.random() < 0.2)
     datasets = {"d0": ds}
@@ -474,6 +501,11 @@ def gen_scope_case(rng):
             "tick": True, "raw": [rng.randint(0, 10 ** 6) for _ in range(80)]}
 
 
+INPUT_NAMES = ["D0.CSV", "d0.Csv", "contacts_export.txt", "input", "data.csv.bak", "in put.tsv", ".csv", "x.csv.txt",
+               "Z\u00fcrich.CSV", "export.dat", "upd.csv", "UPD.csv"]
+INPUT_AS = ["str", "path", "stream_file", "stream_mem"]
+
+
 def gen_update_case(rng, n=None):
     n = rng.randint(0, 7) if n is None else n
     ds = gen_dataset(rng, n, short=rng.random() < 0.1, distinct=rng.random() < 0.6)
@@ -498,6 +530,12 @@ def gen_update_case(rng, n=None):
     case = {"kind": "update", "datasets": datasets, "recipe": recipe, "input": "d0",
             "passthrough": pick_pass(rng, ds, allow_missing=False if r >= 0.45 and rng.random() < 0.5 else True),
             "iters": 1, "tick": False, "raw": [rng.randint(0, 10 ** 6) for _ in range(20)]}
+    if rng.random() < 0.6:
+        # update mode takes any file name (Dataset.iterate insists on *.csv, --update-input-file does not) and an
+        # open stream as well: the records and their cells are the same whatever the file is called
+        case["input_name"] = rng.choice(INPUT_NAMES)
+    if rng.random() < 0.5:
+        case["input_as"] = rng.choice(INPUT_AS)
     if r >= 0.6 and rng.random() < 0.6:
         # a stopping criterion on the updated table: at most n rows exist; asking for more must be an error
         case["target"] = rng.choice([max(n - 1, 1), max(n, 1), n + 1, 2 * n + 1, 3 * n])  or 1
@@ -740,6 +778,190 @@ def gen_dyn_case(rng):
     return {"kind": "run", "datasets": datasets, "recipe": [outer], "iters": iters, "tick": iters > 1, "raw": _raw(rng)}
 
 
+def _rerender(rng, ds):
+    ds["text"] = render_csv(rng, ds["header"], ds["rows"], crlf=rng.random() < 0.4,
+                            quote=rng.choice(["minimal", "minimal", "all", "random"]),
+                            blank=rng.random() < 0.15, final_eol=rng.random() < 0.85)
+    h, recs = decode_reference(ds)
+    assert h == ds["header"] and recs == ds["rows"], ("generator/decoder mismatch", ds, h, recs)
+    return ds
+
+
+def rd_name(rd, ordinal, child_index, outer_rec):
+    """the dataset a per-row call names on the row with this ordinal (id - 1) / child_index / for_each record"""
+    if rd["via"] == "var":
+        return None if outer_rec is None else outer_rec[rd["col"]]
+    k = ordinal if rd["on"] == "id" else child_index
+    return rd["cands"][rd["pattern"][k % len(rd["pattern"])]]
+
+
+def gen_rowdyn_case(rng):
+    """Dataset.iterate / Dataset.shuffle as a FIELD whose arguments are computed per row (file name, table of one
+    database, database URL — by a formula over id / child_index, through another field of the row, or from the
+    record of the row's for_each): every row must get the next record of the dataset ITS arguments name — each
+    named dataset is handed out in its own order from its own record 0, wraps at its own n, fails at its own end.
+    Outside the Coq recipe model (its templates name their dataset statically): oracle only."""
+    k = rng.choice([2, 2, 3])
+    what = rng.choice(["file", "file", "table", "db"])
+    names = ["e%d" % i for i in range(k)]
+    same_header = rng.random() < 0.5
+    header0 = rng.sample(NAMES, rng.choice([1, 2, 3]))
+    datasets = {}
+    for nm in names:
+        ln = 0 if rng.random() < 0.06 else rng.choice([1, 2, 2, 3, 3, 4, 5])
+        d = gen_dataset(rng, ln, distinct=True, header=header0 if same_header else None)
+        for r in d["rows"]:
+            r[0] = nm + "_" + r[0]
+        datasets[nm] = _rerender(rng, d)
+    maxlen = max(len(d["rows"]) for d in datasets.values())
+    mode = rng.choice(["iterate", "iterate", "shuffle"])
+    repeat = rng.choice([None, None, True, False])
+    src = "csv" if what == "file" else "sql"
+    via = rng.choice(["formula", "formula", "field", "var"])
+    counter = [0]
+
+    def pattern():
+        for _ in range(20):
+            p = [rng.randrange(k) for _ in range(rng.choice([2, 2, 3, 4, 5]))]
+            if len(set(p)) > 1:
+                return p
+        return [0, 1]
+
+    def site(tid, via_):
+        sid = _sid(counter)
+        u = use(names[0], src, mode, repeat, table=rng.random() < 0.6)
+        rd = {"cands": names, "what": what, "via": via_}
+        if via_ == "var":
+            rd["col"] = 1
+            rd["expr"] = "${{v%d.file}}" % tid
+            rd["arg"] = rd["expr"]
+        else:
+            rd["on"] = rng.choice(["id", "child_index"])
+            rd["pattern"] = pattern()
+            idx = "(id - 1)" if rd["on"] == "id" else "child_index"
+            rd["expr"] = "${{ [%s][%s %% %d] }}" % (", ".join("'%s'" % names[i] for i in rd["pattern"]), idx, len(rd["pattern"]))
+            rd["arg"] = "${{a%d}}" % sid if via_ == "field" else rd["expr"]
+        u["rowdyn"] = rd
+        return [sid, u]
+
+    m = rng.randint(2, 3 * maxlen + 2)
+    iters = rng.choice([1, 1, 2])
+    if via == "var":
+        order = [rng.choice(names) for _ in range(rng.randint(2, 2 * maxlen + 3))]
+        od = {"header": ["k1", "file"], "rows": [["o%d" % i, nm] for i, nm in enumerate(order)], "safe": [True, True], "bom": False}
+        datasets["d1"] = _rerender(rng, od)
+        t = tmpl(2, ["foreach", use("d1", "csv", "iterate", None)], pas=["k1"])
+        t["sites"] = [site(2, "var")]
+        if rng.random() < 0.3:
+            t["sites"].append(site(2, "formula"))
+        recipe = [t]
+    else:
+        cons = tmpl(1, ["count", m], sites=[site(1, via)])
+        r = rng.random()
+        if r < 0.25:
+            cons["sites"].append(site(1, rng.choice(["formula", "field"])))        # two computed call sites in one row
+        elif r < 0.4:
+            cons["sites"].append([_sid(counter), use(names[-1], src if what != "table" else "csv", rng.choice(["iterate", "shuffle"]), None)])
+        placement = rng.choice(["top", "top", "friend", "nested", "fe_friend", "siblings"])
+        if placement == "top":
+            recipe = [cons]
+        elif placement == "friend":
+            cons["loop"] = ["count", rng.randint(1, 3)]
+            recipe = [tmpl(3, ["count", rng.randint(2, maxlen + 2)], friends=[cons])]
+        elif placement == "nested":
+            cons["loop"] = ["count", rng.randint(1, 2)]
+            recipe = [tmpl(3, ["count", rng.randint(2, maxlen + 2)], nested=[cons])]
+        elif placement == "fe_friend":
+            d1 = gen_dataset(rng, rng.randint(2, 4), distinct=True)
+            datasets["d1"] = d1
+            cons["loop"] = ["count", rng.randint(1, 3)]
+            recipe = [tmpl(3, ["foreach", use("d1", "csv", "iterate", None)], friends=[cons])]
+        else:
+            other = tmpl(4, ["count", rng.randint(1, m)], sites=[site(4, rng.choice(["formula", "field"]))])
+            recipe = [cons, other]
+    return {"kind": "run", "datasets": datasets, "recipe": recipe, "iters": iters, "tick": iters > 1 or rng.random() < 0.3,
+            "raw": _raw(rng), "shape": "rowdyn/%s/%s" % (what, via)}
+
+
+INC_DIRS = ["sub", "inc/deep", "other"]
+
+
+def gen_include_case(rng, src=None, url=None):
+    """one run, several folders: the recipe includes recipe files from other folders and every file reads ITS OWN
+    `d0` — the same relative text (`d0.csv`, `sqlite:///d0.db`) means another file, with other records, other n and
+    (often) other columns, in every folder.  Templates of included files run first."""
+    src = src or rng.choice(["sql", "sql", "csv"])
+    url = url or rng.choice(["rel", "rel", "rel", "abs"])
+    dirs = rng.sample(INC_DIRS, rng.choice([1, 1, 2])) + [None]
+    datasets, recipe = {}, []
+    same_header = rng.random() < 0.4
+    header0 = rng.sample(NAMES, rng.choice([1, 2, 3]))
+    counter = [0]
+    for gi, d in enumerate(dirs):
+        key = "d0" if d is None else d + "/d0"
+        n = rng.choice([0, 1, 2, 2, 3, 4, 5])
+        pk = rng.choice(PK_KINDS) if (src == "sql" and rng.random() < 0.3) else None
+        ds = gen_dataset(rng, n, distinct=True, pk=pk, header=header0 if same_header else None)
+        datasets[key] = ds
+        tid = gi + 1
+        mode = rng.choice(["iterate", "iterate", "shuffle"])
+        tbl = rng.random() < 0.6
+        shape = rng.choice(["fe", "fe", "site", "site", "fe_then_site"])
+        ts = []
+        if shape in ("fe", "fe_then_site"):
+            ts.append(tmpl(tid, ["foreach", use(key, src, mode, rng.choice([None, None, False]), table=tbl)],
+                           pas=pick_pass(rng, ds)))
+        if shape in ("site", "fe_then_site"):
+            t = tmpl(tid + 10, ["count", rng.randint(1, 2 * n + 2) if n else rng.randint(0, 1)],
+                     sites=[[_sid(counter), use(key, src, mode, rng.choice([None, None, True]), table=tbl)]])
+            ts.append(t)
+        if d is None and rng.random() < 0.3 and ts:
+            ts = [tmpl(tid + 20, ["count", rng.randint(1, 2)], friends=ts)]
+        for t in ts:
+            if d is not None:
+                t["inc"] = d
+            recipe.append(t)
+    iters = rng.choice([1, 1, 2])
+    return {"kind": "run", "datasets": datasets, "recipe": recipe, "iters": iters, "tick": True, "raw": _raw(rng),
+            "url": url, "shape": "include/%s/%s" % (src, url)}
+
+
+def gen_session_case(rng):
+    """several runs in ONE process (one worker, one folder tree): between the runs the dataset files are
+    regenerated — other records, another n, often other columns; the file is replaced by a new one (rename over
+    it), deleted and written again, or rewritten in place — or the next run's recipe lives in another folder and
+    says the same relative `d0.csv` / `sqlite:///d0.db`.  Every run must hand out the records that are in the file
+    its recipe names at that moment.  Each step is an ordinary case (consumer / for_each / include) and is judged
+    by the ordinary oracle; the last step is also compared with the Coq model."""
+    src = rng.choice(["sql", "sql", "sql", "csv"])
+    url = rng.choice(["rel", "rel", "abs"])
+    layout = rng.choice(["same_dir", "same_dir", "two_dirs", "two_dirs_back"])
+    k = rng.choice([2, 2, 3])
+    same_header = rng.random() < 0.4
+    header0 = rng.sample(NAMES, rng.choice([1, 2, 3]))
+    steps = []
+    for i in range(k):
+        r = rng.random()
+        hd = header0 if same_header else None
+        if r < 0.4:
+            st = gen_consumer_case(rng, src=src, header=hd, placement=rng.choice(["top", "top", "friend", "nested"]),
+                                   iters=rng.choice([1, 1, 2]))
+        elif r < 0.8:
+            st = gen_foreach_case(rng, src=src, header=hd, placement=rng.choice(["top", "top", "friend", "nested", "with_children"]))
+        else:
+            st = gen_include_case(rng, src=src, url=url)
+        st["url"] = url
+        if layout == "same_dir":
+            st["dir"] = "w"
+        elif layout == "two_dirs":
+            st["dir"] = "w%d" % i
+        else:
+            st["dir"] = "w%d" % (i % 2)
+        st["regen"] = rng.choice(["replace", "replace", "unlink", "inplace"])
+        steps.append(st)
+    return {"kind": "session", "steps": steps, "shape": "session/%s/%s/%s" % (src, url, layout)}
+
+
 BIG_SIZES = [499, 500, 501, 1000, 1300]
 
 
@@ -908,6 +1130,12 @@ def generate(rng, tier):
         cases.append(gen_csv_case(rng))
     for _ in range(30 * k):
         cases.append(gen_wild_case(rng))
+    for _ in range(50 * k):
+        cases.append(gen_rowdyn_case(rng))
+    for _ in range(25 * k):
+        cases.append(gen_include_case(rng))
+    for _ in range(30 * k):
+        cases.append(gen_session_case(rng))
     cases.extend(big_cases(rng, tier))
     if tier == "thorough":
         cases.extend(exhaustive_cases(rng))
@@ -915,19 +1143,37 @@ def generate(rng, tier):
 
 
 # ---------------------------------------------------------------- rendering the recipe
+class Ctx(str):
+    """the folder of the run (a str, as before) + how datasets are addressed: rel = by relative text
+    (`sqlite:///d0.db`, resolved against the folder of the recipe file that says it)"""
+    rel = False
+
+
 def _render_use(u, indent, root):
     pad = " " * indent
     fn = "Dataset.iterate" if u["mode"] == "iterate" else "Dataset.shuffle"
     lines = [f"{pad}{fn}:"]
     dyn = u.get("dyn")
-    if dyn:
+    rd = u.get("rowdyn")
+    if rd:
+        if rd["what"] == "file":
+            lines.append(f"{pad}  dataset: {rd['arg']}.csv")
+        elif rd["what"] == "table":
+            lines += [f"{pad}  dataset: sqlite:///{root}/multi.db", f"{pad}  table: {rd['arg']}"]
+        else:
+            lines.append(f"{pad}  dataset: sqlite:///{root}/{rd['arg']}.db")
+            if u.get("table"):
+                lines.append(f"{pad}  table: t")
+    elif dyn:
         expr = "${{v%d.%s}}" % (dyn["outer"], dyn["col"]) if dyn["via"] == "var" else "${{T%d.fname}}" % dyn["outer"]
         if dyn["what"] == "file":
             lines.append(f"{pad}  dataset: {expr}")
         else:
             lines += [f"{pad}  dataset: sqlite:///{root}/multi.db", f"{pad}  table: {expr}"]
     elif u["src"] == "csv":
-        lines.append(f"{pad}  dataset: {u['ds']}.csv")
+        lines.append(f"{pad}  dataset: {u.get('_fname') or (os.path.basename(u['ds']) + '.csv')}")
+    elif getattr(root, "rel", False):
+        lines.append(f"{pad}  dataset: sqlite:///{os.path.basename(u['ds'])}.db")
     else:
         lines.append(f"{pad}  dataset: sqlite:///{root}/{u['ds']}.db")
         if u.get("table"):
@@ -957,6 +1203,8 @@ def _render_tmpl(t, indent, root, var_override=None):
         var = var or f"v{tid}"
     lines.append(f"{pad}  fields:")
     for sid, u in t["sites"]:
+        if u.get("rowdyn"):
+            lines.append(f"{pad}    a{sid}: {u['rowdyn']['expr']}")      # the dataset this row names (observable)
         lines.append(f"{pad}    s{sid}:")
         lines += _render_use(u, indent + 6, root)
     for fname, expr in t.get("extra", []):
@@ -978,12 +1226,23 @@ def _render_tmpl(t, indent, root, var_override=None):
 
 
 def render_recipe(case, root):
+    """{relative file name: text}: recipe.yml and one child.yml per folder named by a top-level template's `inc`"""
     lines = ["- plugin: snowfakery.standard_plugins.datasets.Dataset"]
     if case.get("tick") and case["kind"] == "run":
         lines.append("- object: Tick")
+    files = {}
     for t in case["recipe"]:
-        lines += _render_tmpl(t, 0, root, var_override="input" if case["kind"] == "update" else None)
-    return "\n".join(lines) + "\n"
+        inc = t.get("inc")
+        if inc:
+            if inc not in files:
+                files[inc] = []
+                lines.append(f"- include_file: {inc}/child.yml")
+            files[inc] += _render_tmpl(t, 0, root)
+        else:
+            lines += _render_tmpl(t, 0, root, var_override="input" if case["kind"] == "update" else None)
+    out = {inc + "/child.yml": "\n".join(ls) + "\n" for inc, ls in files.items()}
+    out["recipe.yml"] = "\n".join(lines) + "\n"
+    return out
 
 
 # ---------------------------------------------------------------- implementation
@@ -1046,43 +1305,111 @@ def _run_csv(case, root):
     return out
 
 
-def _run(case, root):
-    if case["kind"] == "csv":
-        return _run_csv(case, root)
-    from snowfakery import generate_data
-    sql_used = {u["ds"] for _, _, _, u, _ in all_uses(case) if u["src"] == "sql"}
+def _put_bytes(path, data, regen):
+    """put a file in place: written afresh / a new file renamed over the old one / the old one deleted first /
+    the old one rewritten in place"""
+    os.makedirs(os.path.dirname(path), exist_ok=True)
+    if regen == "replace" and os.path.exists(path):
+        with open(path + ".new", "wb") as f:
+            f.write(data)
+        os.replace(path + ".new", path)
+        return
+    if regen == "unlink" and os.path.exists(path):
+        os.remove(path)
+    with open(path, "wb") as f:
+        f.write(data)
+
+
+def _put_db(path, tables, regen):
+    """tables: [(table name, ddl or None, header, rows, check rows or None)]"""
+    os.makedirs(os.path.dirname(path), exist_ok=True)
+    target = path
+    if os.path.exists(path):
+        if regen == "replace":
+            target = path + ".new"
+            if os.path.exists(target):
+                os.remove(target)
+        elif regen == "unlink":
+            os.remove(path)
+    con = sqlite3.connect(target, timeout=0.3)
+    if target == path:
+        try:
+            for (old,) in list(con.execute("select name from sqlite_master where type='table' and name not like 'sqlite%'")):
+                con.execute('drop table "%s"' % old)
+            con.commit()
+        except sqlite3.OperationalError:
+            # "database is locked": an iterator of the previous run still holds its read cursor (a consumer that
+            # stopped in mid-table is closed only when it is collected) - regenerate by renaming a new file over it
+            con.close()
+            return _put_db(path, tables, "replace")
+    for name, ddl, header, rows, check in tables:
+        con.execute(ddl or 'create table "%s" (%s)' % (name, ", ".join('"%s" TEXT' % h for h in header)))
+        con.executemany('insert into "%s" values (%s)' % (name, ",".join("?" * len(header))), rows)
+        con.commit()
+        if check is not None:
+            got = [[(c if (c is None or isinstance(c, str)) else str(c)) for c in r] for r in con.execute('select * from "%s"' % name)]
+            assert got == check, "sqlite3 reads the table in another order than at generation time"
+    con.commit()
+    con.close()
+    if target != path:
+        os.replace(target, path)
+
+
+def _materialise(case, base, regen="fresh"):
+    uses = all_uses(case)
+    sql_used = {u["ds"] for _, _, _, u, _ in uses if u["src"] == "sql"}
     for t, _ in walk(case["recipe"]):        # update mode: the template's own for_each too
         if t["loop"][0] == "foreach" and t["loop"][1]["src"] == "sql":
             sql_used.add(t["loop"][1]["ds"])
+    for _k, _t, _s, u, _b in uses:
+        if u.get("rowdyn", {}).get("what") == "db":
+            sql_used.update(u["rowdyn"]["cands"])
     for name, ds in case["datasets"].items():
-        with open(os.path.join(root, name + ".csv"), "wb") as f:
-            f.write(file_bytes(ds))
+        _put_bytes(os.path.join(base, csv_name(case, name) if "/" not in name else name + ".csv"), file_bytes(ds), regen)
         if name in sql_used:
-            con = sqlite3.connect(os.path.join(root, name + ".db"))
-            cols = ", ".join('"%s" TEXT' % h for h in ds["header"])
-            con.execute(ds.get("ddl") or f"create table t ({cols})")
-            con.executemany("insert into t values (%s)" % ",".join("?" * len(ds["header"])), ds["rows"])
-            con.commit()
-            if "sql_rows" in ds:
-                got = [[(c if (c is None or isinstance(c, str)) else str(c)) for c in r] for r in con.execute("select * from t")]
-                assert got == ds["sql_rows"], "sqlite3 reads the table in another order than at generation time"
-            con.close()
-    multi = sorted({c for _k, _t, _s, u, _b in all_uses(case) if u.get("dyn", {}).get("what") == "table"
-                    for c in u["dyn"]["cands"]})
+            _put_db(os.path.join(base, name + ".db"), [("t", ds.get("ddl"), ds["header"], ds["rows"], ds.get("sql_rows"))], regen)
+    multi = sorted({c for _k, _t, _s, u, _b in uses if (u.get("dyn") or u.get("rowdyn") or {}).get("what") == "table"
+                    for c in (u.get("dyn") or u.get("rowdyn"))["cands"]})
     if multi:
-        con = sqlite3.connect(os.path.join(root, "multi.db"))
-        for name in multi:
-            ds = case["datasets"][name]
-            con.execute('create table "%s" (%s)' % (name, ", ".join('"%s" TEXT' % h for h in ds["header"])))
-            con.executemany('insert into "%s" values (%s)' % (name, ",".join("?" * len(ds["header"]))), ds["rows"])
-        con.commit()
-        con.close()
-    recipe_path = os.path.join(root, "recipe.yml")
-    with open(recipe_path, "w", encoding="utf-8") as f:
-        f.write(render_recipe(case, root))
+        _put_db(os.path.join(base, "multi.db"),
+                [(name, None, case["datasets"][name]["header"], case["datasets"][name]["rows"], None) for name in multi], regen)
+    ctx = Ctx(base)
+    ctx.rel = case.get("url") == "rel"
+    for _k, _t, _s, u, _b in uses:
+        u.pop("_fname", None)
+        if "/" not in u["ds"] and case["datasets"][u["ds"]].get("fname"):
+            u["_fname"] = case["datasets"][u["ds"]]["fname"]
+    for rel, text in render_recipe(case, ctx).items():
+        _put_bytes(os.path.join(base, rel), text.encode("utf-8"), "fresh")
+    return os.path.join(base, "recipe.yml")
+
+
+def _update_input(case, base, opened):
+    """the update input file under the name the case gives it, passed as str / Path / open file / text stream"""
+    import pathlib
+    ds = case["datasets"][case["input"]]
+    path = os.path.join(base, case.get("input_name") or (case["input"] + ".csv"))
+    if not os.path.exists(path):
+        with open(path, "wb") as f:
+            f.write(file_bytes(ds))
+    how = case.get("input_as", "str")
+    if how == "path":
+        return pathlib.Path(path)
+    if how == "stream_file":
+        f = open(path, "r", newline="", encoding="utf-8-sig")      # opened the way the csv module asks for
+        opened.append(f)
+        return f
+    if how == "stream_mem":
+        return io.StringIO(file_bytes(ds).decode("utf-8-sig"), newline="")
+    return path
+
+
+def _execute(case, base, recipe_path):
+    from snowfakery import generate_data
     kw = {}
+    opened = []
     if case["kind"] == "update":
-        kw["update_input_file"] = os.path.join(root, case["input"] + ".csv")
+        kw["update_input_file"] = _update_input(case, base, opened)
         kw["update_passthrough_fields"] = list(case["passthrough"])
     elif case.get("tick"):
         kw["target_number"] = ("Tick", case["iters"])
@@ -1096,7 +1423,7 @@ def _run(case, root):
         try:
             if case.get("cont"):
                 # an earlier run of the same recipe leaves a continuation file; the observed run continues it
-                cont_path = os.path.join(root, "cont.yml")
+                cont_path = os.path.join(base, "cont.yml")
                 generate_data(recipe_path, output_format="harness.c17.CaptureStream",
                               target_number=("Tick", case["cont"]), generate_continuation_file=cont_path)
                 out["prelude_rows"] = len(_ROWS)
@@ -1106,11 +1433,29 @@ def _run(case, root):
         except BaseException as e:
             out["err"] = C.canon_exc(e)
             out["msg"] = str(e)[:160]
+    for f in opened:
+        try:
+            f.close()
+        except Exception:
+            pass
     out["rows"] = [[t, {k: _ser(v) for k, v in r.items()}] for t, r in _ROWS if t != "Tick"]
     out["draws"] = list(rec.values)
     out["widths"] = list(rec.widths)
     del _ROWS[:]
     return out
+
+
+def _run(case, root):
+    if case["kind"] == "csv":
+        return _run_csv(case, root)
+    if case["kind"] == "session":
+        # several runs in this one process, over one folder tree
+        outs = []
+        for step in case["steps"]:
+            base = os.path.join(root, step.get("dir", ""))
+            outs.append(_execute(step, base, _materialise(step, base, step.get("regen", "replace"))))
+        return {"steps": outs}
+    return _execute(case, root, _materialise(case, root))
 
 
 # ---------------------------------------------------------------- decoding the observation
@@ -1143,7 +1488,7 @@ def decode(case, obs):
         if not (table.startswith("T") and table[1:].isdigit() and int(table[1:]) in tinfo):
             raise Undecodable(f"row of unknown table {table}")
         t = tinfo[int(table[1:])]
-        row = {"tid": t["tid"], "fe": None, "cons": [], "pas": []}
+        row = {"tid": t["tid"], "fe": None, "cons": [], "pas": [], "names": {}}
         try:
             row["ci"] = int(str(vals.get("ci")))
         except ValueError:
@@ -1169,7 +1514,13 @@ def decode(case, obs):
             v = vals.get(f"s{sid}")
             if not (isinstance(v, dict) and "rec" in v):
                 raise Undecodable(f"field s{sid} is not a dataset record: {v!r}")
-            row["cons"].append((sid, _align(v["rec"], case["datasets"][u["ds"]])))
+            dsname = u["ds"]
+            if u.get("rowdyn"):
+                dsname = vals.get(f"a{sid}")
+                if dsname not in u["rowdyn"]["cands"]:
+                    raise Undecodable(f"field a{sid} (the dataset the row names) is {dsname!r}")
+                row["names"][sid] = dsname
+            row["cons"].append((sid, _align(v["rec"], case["datasets"][dsname])))
         rows.append(row)
     return rows
 
@@ -1367,13 +1718,55 @@ def coq_csv_case(case, obs):
     return f"CCsv {file_text(ds)} {c_rows(rows)} {recs}"
 
 
+def coq_args_case(case, obs):
+    """CArgs: the unnamed Dataset.iterate field evaluations of the run in the order they happen (call site, the
+    dataset the rendered arguments name, repeat) and the records of the rows that were written"""
+    err = obs.get("err")
+    if err not in (None, "DGE"):
+        return None
+    try:
+        rows = decode(case, obs)
+    except Undecodable:
+        return None
+    sp = spec_run(case)
+    if not sp.calls:
+        return None
+    names = sorted(case["datasets"])
+    vals = _event_values(rows, [(tid, ordinal, sid) for sid, _ds, _rp, tid, ordinal in sp.calls])
+    exp = []
+    for v in vals:
+        if v is None:
+            break
+        exp.append(v)
+    # a call names its dataset on the row itself (field a<sid>): take the name the ROW gave where it was written
+    calls = []
+    by_tid = {}
+    for r in rows:
+        by_tid.setdefault(r["tid"], []).append(r)
+    for sid, dsname, rp, tid, ordinal in sp.calls:
+        trows = by_tid.get(tid, [])
+        if ordinal < len(trows) and sid in trows[ordinal]["names"]:
+            dsname = trows[ordinal]["names"][sid]
+        calls.append(f"({C.cnat(sid)}, {C.cnat(names.index(dsname))}, {C.cbool(rp)})")
+    tbl = C.clist(C.clist(c_rec(r) for r in case["datasets"][nm]["rows"]) for nm in names)
+    e = "None" if err is None else f"(Some {C.cerr(err)})"
+    return f"CArgs {tbl} {C.clist(calls)} {C.clist(c_rec(r) for r in exp)} {e}"
+
+
 def coq_case(case, obs):
     if case["kind"] == "csv":
         return coq_csv_case(case, obs)
+    if case["kind"] == "session":
+        # the run that has the longest history behind it is compared with the model
+        if len(obs.get("steps") or []) != len(case["steps"]):
+            return None
+        return coq_case(case["steps"][-1], obs["steps"][-1])
     if extra_rejected(case, obs):
         return None
     if any("long" in ds for ds in case["datasets"].values()):
         return None                 # malformed file: outside the model, oracle only
+    if any(u.get("rowdyn") for _k, _t, _s, u, _b in all_uses(case)):
+        return coq_args_case(case, obs)     # arguments computed per row: the model's argument-keyed memo table
     if any(u.get("dyn") for _k, _t, _s, u, _b in all_uses(case)):
         return None                 # dataset name computed at run time: the model's templates are static
     try:
@@ -1409,7 +1802,7 @@ class _SpecStop(Exception):
 
 class Spec:
     """what the property prescribes for a case (spec_run)"""
-    __slots__ = ("counts", "must_fail", "events", "cons", "owner", "sharers")
+    __slots__ = ("counts", "must_fail", "events", "cons", "owner", "sharers", "calls")
 
     def __iter__(self):                 # counts, must_fail, events = spec_run(case)
         return iter((self.counts, self.must_fail, self.events))
@@ -1432,6 +1825,7 @@ def spec_run(case):
     counts = Counter()
     events = []
     sp.counts, sp.must_fail, sp.events, sp.cons, sp.owner, sp.sharers = counts, True, events, {}, {}, {}
+    sp.calls = []        # every evaluation of an unnamed Dataset.iterate field, in order: (sid, dataset, repeat, tid, ordinal)
     if top is None:
         return sp
     for kind, t, sid, u, _b in all_uses(case):
@@ -1465,9 +1859,18 @@ def spec_run(case):
                 cur[t["tid"]] = fe_data[i]
             for sid, u in t["sites"]:
                 key = key_of(sid, u)
+                if u.get("rowdyn"):
+                    # arguments computed per row: one remembered iterator per call site AND rendered arguments
+                    nm = rd_name(u["rowdyn"], counts[t["tid"]], i, cur.get(t["tid"]))
+                    if nm not in case["datasets"]:
+                        raise _SpecStop()
+                    key = key + "/" + nm
+                    u = dict(u, ds=nm)
                 ou = sp.owner.setdefault(key, u)         # the state is made by whoever asks first
                 n = len(data_of(case, ou))
                 k = used[key]
+                if not u.get("name") and u["mode"] == "iterate":
+                    sp.calls.append((sid, u["ds"], u["repeat"] is not False, t["tid"], counts[t["tid"]]))
                 if k == 0 or (n > 0 and k % n == 0 and ou["repeat"] is not False):
                     start(("key", key), ou)              # created at its first use, restarted after every n
                 if n == 0 or (ou["repeat"] is False and k >= n):
@@ -1588,9 +1991,36 @@ def extra_rejected(case, obs):
     return not any(int(tab[1:]) in tids for tab, _ in obs.get("rows", []) if tab[1:].isdigit())
 
 
+def _check_draws(vals, data, u):
+    """the successive records one remembered iterator handed out vs. its dataset"""
+    n = len(data)
+    for k, v in enumerate(vals):
+        if n == 0:
+            return f"a record was handed out from an empty dataset: {v}"
+        if u["repeat"] is False and k >= n:
+            return f"silent reuse: draw {k + 1} from a non-repeating dataset of {n} records returned {v}"
+        if u["mode"] == "iterate" and v != data[k % n]:
+            return f"draw {k} (0-based) of an {n}-record dataset is {v}, expected record {k % n} = {data[k % n]}"
+    if u["mode"] == "shuffle" and n > 0:
+        want = Counter(tuple(d) for d in data)
+        for b in range(0, len(vals), n):
+            block = Counter(tuple(v) for v in vals[b:b + n])
+            if (len(vals) - b >= n and block != want) or (block - want):
+                return f"draws {b}..{b + n - 1} of a shuffled {n}-record dataset are not a permutation of it: {vals[b:b + n]}"
+    return None
+
+
 def oracle(case, obs):
     if case["kind"] == "csv":
         return oracle_csv(case, obs)
+    if case["kind"] == "session":
+        steps_obs = obs.get("steps") or []
+        for i, (st, o) in enumerate(zip(case["steps"], steps_obs)):
+            msg = oracle(st, o)
+            if msg:
+                kind, _, rest = msg.partition(":")
+                return f"{kind}: run {i + 1} of {len(case['steps'])} in one process ({st.get('regen')}, folder {st.get('dir')}):{rest}"
+        return None
     if extra_rejected(case, obs):
         return None
     for name, ds in case["datasets"].items():
@@ -1621,25 +2051,19 @@ def oracle(case, obs):
         trows = [r for r in rows if r["tid"] == t["tid"]]
         if kind == "site" and len(sp.sharers.get(key_of(sid, u), [])) > 1:
             continue                     # an iterator shared through `name`: checked per iterator below
-        if kind == "site":
-            vals = [dict(r["cons"])[sid] for r in trows]
-            msg = None
-            for k, v in enumerate(vals):
-                if n == 0:
-                    msg = f"a record was handed out from an empty dataset: {v}"
-                elif u["repeat"] is False and k >= n:
-                    msg = f"silent reuse: draw {k + 1} from a non-repeating dataset of {n} records returned {v}"
-                elif u["mode"] == "iterate" and v != data[k % n]:
-                    msg = f"draw {k} (0-based) of an {n}-record dataset is {v}, expected record {k % n} = {data[k % n]}"
+        if kind == "site" and u.get("rowdyn"):
+            # arguments computed per row: the rows that name one dataset get ITS records 0,1,..,n-1,0,.. in their
+            # order (each once per n for shuffle), whatever the rows in between name
+            per = {}
+            for r in trows:
+                per.setdefault(r["names"][sid], []).append(dict(r["cons"])[sid])
+            for nm, vals in per.items():
+                msg = _check_draws(vals, data_of(case, dict(u, ds=nm)), u)
                 if msg:
-                    break
-            if not msg and u["mode"] == "shuffle" and n > 0:
-                for b in range(0, len(vals), n):
-                    block = Counter(tuple(v) for v in vals[b:b + n])
-                    want = Counter(tuple(d) for d in data)
-                    if (len(vals) - b >= n and block != want) or (block - want):
-                        msg = f"draws {b}..{b + n - 1} of a shuffled {n}-record dataset are not a permutation of it: {vals[b:b + n]}"
-                        break
+                    return (f"iterate: call site s{sid} of T{t['tid']} (arguments computed per row), rows naming "
+                            f"dataset {nm}: {msg}")
+        elif kind == "site":
+            msg = _check_draws([dict(r["cons"])[sid] for r in trows], data, u)
             if msg:
                 where = " (below a for_each)" if rc else ""
                 return f"iterate: call site s{sid} of T{t['tid']}{where}: {msg}"
@@ -1733,6 +2157,8 @@ def violation_class(case, obs, msg):
 def nontrivial(case, obs):
     if case["kind"] == "csv":
         return "records" in obs and len(obs.get("reader_rows", [])) >= 2
+    if case["kind"] == "session":
+        return any(nontrivial(st, o) for st, o in zip(case["steps"][1:], (obs.get("steps") or [])[1:]))
     try:
         rows = decode(case, obs)
     except Exception:
@@ -1749,10 +2175,65 @@ def stats(cases, obss):
     kinds, sizes, modes, srcs, reps, outcomes, place, draws = (Counter() for _ in range(8))
     feats = Counter()
     shapes = Counter()
+    sess, rowdyn, upd = Counter(), Counter(), Counter()
+    flat = []
     for c, o in zip(cases, obss):
         kinds[c["kind"]] += 1
+        if c["kind"] == "session":
+            so = (o.get("steps") if isinstance(o, dict) else None) or []
+            shapes[c.get("shape", "session")] += 1
+            sess["sessions"] += 1
+            sess["runs_in_sessions"] += len(c["steps"])
+            sess["steps=%d" % len(c["steps"])] += 1
+            for i, st in enumerate(c["steps"]):
+                flat.append((st, so[i] if i < len(so) else None))
+                if i:
+                    prev = c["steps"][i - 1]
+                    same = st.get("dir") == prev.get("dir")
+                    sess["regenerated_in_same_folder/" + str(st.get("regen")) if same else "other_folder_same_relative_text"] += 1
+                    h0 = (prev["datasets"].get("d0") or {}).get("header")
+                    h1 = (st["datasets"].get("d0") or {}).get("header")
+                    sess["columns_changed" if h0 != h1 else "columns_kept"] += 1
+                    n0 = len((prev["datasets"].get("d0") or {}).get("rows", []))
+                    n1 = len((st["datasets"].get("d0") or {}).get("rows", []))
+                    sess["n_grows" if n1 > n0 else "n_shrinks" if n1 < n0 else "n_same"] += 1
+        else:
+            flat.append((c, o))
+    for c, o in flat:
         if isinstance(o, dict):
             outcomes[o.get("err", "ok") if "rows" in o else "harness"] += 1
+        if c.get("url"):
+            feats["dataset_by_relative_url_text" if c["url"] == "rel" else "dataset_by_absolute_url"] += 1
+        incs = {t.get("inc") for t in c["recipe"] if t.get("inc")}
+        if incs:
+            feats["included_recipe_files_in_other_folders"] += 1
+            sess["include/folders=%d" % (len(incs) + 1)] += 1
+        if c["kind"] == "update":
+            nm = c.get("input_name")
+            upd["name/" + ("default d0.csv" if not nm else "lower .csv" if nm.endswith(".csv") and nm != ".csv" else
+                           "other-case .csv" if nm.lower().endswith(".csv") and nm != ".csv" else "no .csv suffix")] += 1
+            upd["passed_as/" + c.get("input_as", "str")] += 1
+            d = c["datasets"][c["input"]]
+            odd = bool(nm) and not (nm.endswith(".csv") and nm != ".csv")
+            upd["odd_name_with_bom"] += bool(odd and d.get("bom"))
+            upd["odd_name_with_cr_in_quoted_cell"] += bool(odd and any(c2 and "\r" in c2 for r in d["rows"] for c2 in r))
+        for _k, t, _s, u, _b in all_uses(c):
+            rd = u.get("rowdyn")
+            if rd:
+                rowdyn["call_sites"] += 1
+                rowdyn["what/" + rd["what"]] += 1
+                rowdyn["via/" + rd["via"]] += 1
+                rowdyn["mode/" + u["mode"]] += 1
+                rowdyn["repeat/" + str(u["repeat"])] += 1
+                if "on" in rd:
+                    rowdyn["on/" + rd["on"]] += 1
+                hs = {tuple(c["datasets"][x]["header"]) for x in rd["cands"]}
+                rowdyn["candidates_same_columns" if len(hs) == 1 else "candidates_other_columns"] += 1
+                if isinstance(o, dict) and "rows" in o:
+                    named = Counter(r.get("a%d" % _s) for tb, r in o["rows"] if tb == "T%d" % t["tid"])
+                    rowdyn["rows_naming_2+_datasets" if len(named) > 1 else "rows_naming_1_dataset"] += 1
+                    lens = [len(c["datasets"][x]["rows"]) for x in named if x in c["datasets"]]
+                    rowdyn["some_named_dataset_wrapped_or_exhausted"] += any(named[x] > len(c["datasets"][x]["rows"]) for x in named if x in c["datasets"])
         for ds in c["datasets"].values():
             nrec = len(ds["rows"])
             sizes[nrec if nrec <= 7 else ">=499"] += 1
@@ -1763,6 +2244,7 @@ def stats(cases, obss):
             feats["short_lines"] += any(None in r for r in ds["rows"])
             feats["long_line(oracle only)"] += "long" in ds
             feats["embedded_newline"] += any(c2 and "\n" in c2 for r in ds["rows"] for c2 in r)
+            feats["csv_file_name_of_unusual_spelling"] += bool(ds.get("fname"))
         for kind, t, sid, u, rc in all_uses(c):
             modes[f"{kind}/{u['mode']}"] += 1
             srcs[u["src"]] += 1
@@ -1773,6 +2255,7 @@ def stats(cases, obss):
                 m = t["loop"][1]
                 draws["m=0" if m == 0 else "m<n" if m < n else "m=n" if m == n else "m=n+1" if m == n + 1
                       else "m multiple of n" if n and m % n == 0 else "m>n"] += 1
+        feats["dataset_args_computed_per_row(oracle only)"] += any(u.get("rowdyn") for _k, _t, _s, u, _b in all_uses(c))
         us = all_uses(c)
         feats["named_call"] += any(u.get("name") for _k, _t, _s, u, _b in us)
         feats["named_for_each"] += any(k == "foreach" and u.get("name") for k, _t, _s, u, _b in us)
@@ -1802,7 +2285,8 @@ def stats(cases, obss):
             feats["update_passthrough"] += bool(c["passthrough"])
     return {"kinds": dict(kinds), "dataset_sizes": {str(k): v for k, v in sorted(sizes.items(), key=lambda kv: str(kv[0]))},
             "uses": dict(modes), "sources": dict(srcs), "repeat_kw": dict(reps), "outcomes": dict(outcomes),
-            "placement": dict(place), "count_vs_size": dict(draws), "features": dict(feats), "named_shapes": dict(shapes)}
+            "placement": dict(place), "count_vs_size": dict(draws), "features": dict(feats), "named_shapes": dict(shapes),
+            "histories_and_folders": dict(sess), "args_per_row": dict(rowdyn), "update_input": dict(upd)}
 
 
 # ---------------------------------------------------------------- shrinking / directed search
@@ -1827,6 +2311,12 @@ def _with_rows(case, name, rows):
 def shrink(case):
     """a few big steps only: every candidate costs a fresh worker pool in the driver"""
     import copy
+    if case["kind"] == "session":
+        st = case["steps"]
+        if len(st) > 2:
+            yield dict(case, steps=st[1:])
+            yield dict(case, steps=st[:-1])
+        return
     if case["kind"] == "csv":
         ds = case["datasets"]["d0"]
         t = ds["text"]
@@ -1869,6 +2359,9 @@ def directed_search(rng, disagreeing):
             for src in ("csv", "sql"):
                 out.append(gen_foreach_case(rng, n=n, mode=mode, src=src))
         out.append(gen_update_case(rng, n=n))
+    out.extend(gen_session_case(rng) for _ in range(150))
+    out.extend(gen_include_case(rng) for _ in range(100))
+    out.extend(gen_rowdyn_case(rng) for _ in range(150))
     out.extend(gen_interleaved_case(rng) for _ in range(200))
     out.extend(big_cases(rng, "quick"))
     out.extend(gen_consumer_case(rng) for _ in range(600))
